@@ -94,7 +94,7 @@ package nsqd
 //@ fn delayMs(b []byte) int := dec(arr(b), off(b), len(b))
 //@ func (p *protocolV2) DPUB(client *clientV2, params [][]byte) ([]byte, error)
 //@   onreturn cmdHandled := cmdHandled + 1
-//@   props C09 C01 C07
+//@   props C09 C01 C07 C04
 //@   requires validPubCtx(p, client)
 //@   ensures[fatal-or-ok] fatalOrNil(result1)
 //@   ensures[params] len(params) < 3 ==> isFatal(result1, "E_INVALID") && rPos == old(rPos)
